@@ -318,10 +318,9 @@ thread_local! {
     static PREP: RefCell<Option<Prepared>> = RefCell::new(None);
 }
 
-fn prepare(job: &Job, seed_tf: (f64, f64)) -> Prepared {
+fn prepare(job: &Job, order: usize, key: String, seed_tf: (f64, f64)) -> Prepared {
     let fam = job.s("fam");
     let d = job.u("d");
-    let order = job.u("order");
     let (mut pts, exact) = match fam {
         "chain" => (data::chain(d, job.u("n"), job.u("pattern"), job.u("dir")), true),
         "blobs" => (data::blobs(d, job.u("k"), job.i("r"), job.i("gap"), job.u("extras")), true),
@@ -335,7 +334,7 @@ fn prepare(job: &Job, seed_tf: (f64, f64)) -> Prepared {
     // integer blobs with a half-integer bridge are still exact in binary
     let eps = [data::eps_for(&pts, Metric::Euclid, exact), data::eps_for(&pts, Metric::Manhattan, exact)];
     let queries = data::queries_for(&pts);
-    Prepared { key: job.name.clone(), pts, queries, eps }
+    Prepared { key, pts, queries, eps }
 }
 
 const MS_MAX: usize = 8;
@@ -371,7 +370,7 @@ impl Harness for C13 {
                     let per_seq = lat.eps_list(t).len() * ms_cap.min(n + 1);
                     // fix the first L points in the job so that a job stays below ~120k executions
                     let mut l = 0usize;
-                    while l < n && a.pow((n - l) as u32) * per_seq > 120_000 {
+                    while l < n && a.pow((n - l) as u32) * per_seq > (if t { 600_000 } else { 120_000 }) {
                         l += 1;
                     }
                     for metric in ["euclidean", "manhattan"] {
@@ -388,6 +387,25 @@ impl Harness for C13 {
                                 json!({"kind": "lattice", "lattice": lat.name(), "n": n, "metric": metric, "width": width, "prefix": prefix, "ms_cap": ms_cap, "thorough": t}),
                             ));
                         }
+                    }
+                }
+            }
+        }
+        // ---- larger point MULTISETS on the two small lattices (every non-decreasing sequence), each in
+        // several row orders: reaches the sizes at which a border point can sit between two clusters
+        // (n >= 7 in 1-D) without the n! blow-up of sequences
+        let ms_orders: &[usize] = if t { &[0, 1, 2, 3] } else { &[0, 2] };
+        let multisets = [(Lattice::Line5, if t { 7..=12usize } else { 7..=9usize }), (Lattice::Grid3, if t { 5..=7usize } else { 5..=6usize })];
+        let mut multiset_bounds = Vec::new();
+        for (lat, ns) in multisets {
+            multiset_bounds.push(json!({"lattice": lat.name(), "multisets_of": format!("{}..{} points", ns.start(), ns.end()), "row_orders": ms_orders, "eps": lat.eps_list(t), "min_samples": format!("1..{}", ms_cap), "metrics": ["euclidean", "manhattan"], "width": "f64"}));
+            for n in ns {
+                for metric in ["euclidean", "manhattan"] {
+                    for first in 0..lat.size() {
+                        jobs.push(Job::new(
+                            format!("{}-multiset-n{}-{}-from{}", lat.name(), n, &metric[..3], first),
+                            json!({"kind": "multiset", "lattice": lat.name(), "n": n, "metric": metric, "first": first, "orders": ms_orders, "ms_cap": ms_cap, "thorough": t}),
+                        ));
                     }
                 }
             }
@@ -409,13 +427,11 @@ impl Harness for C13 {
                         if !t && (pattern == 5 || (pattern == 3 && d > 2)) {
                             continue;
                         }
-                        for &order in orders {
-                            jobs.push(Job::new(
-                                format!("chain-d{}-n{}-dir{}-pat{}-ord{}", d, n, dir, pattern, order),
-                                json!({"kind": "structured", "fam": "chain", "d": d, "n": n, "dir": dir, "pattern": pattern, "order": order, "ms_cap": MS_MAX}),
-                            ));
-                            structured += 1;
-                        }
+                        jobs.push(Job::new(
+                            format!("chain-d{}-n{}-dir{}-pat{}", d, n, dir, pattern),
+                            json!({"kind": "structured", "fam": "chain", "d": d, "n": n, "dir": dir, "pattern": pattern, "orders": orders, "ms_cap": MS_MAX}),
+                        ));
+                        structured += orders.len();
                     }
                 }
             }
@@ -439,13 +455,11 @@ impl Harness for C13 {
                             if !t && extras == 1 {
                                 continue;
                             }
-                            for &order in orders {
-                                jobs.push(Job::new(
-                                    format!("blobs-d{}-k{}-r{}-gap{}-x{}-ord{}", d, k, r, gap, extras, order),
-                                    json!({"kind": "structured", "fam": "blobs", "d": d, "k": k, "r": r, "gap": gap, "extras": extras, "order": order, "ms_cap": MS_MAX}),
-                                ));
-                                structured += 1;
-                            }
+                            jobs.push(Job::new(
+                                format!("blobs-d{}-k{}-r{}-gap{}-x{}", d, k, r, gap, extras),
+                                json!({"kind": "structured", "fam": "blobs", "d": d, "k": k, "r": r, "gap": gap, "extras": extras, "orders": orders, "ms_cap": MS_MAX}),
+                            ));
+                            structured += orders.len();
                         }
                     }
                 }
@@ -458,14 +472,12 @@ impl Harness for C13 {
                     if !t && k == 2 {
                         continue;
                     }
-                    for &order in orders {
-                        let shift = (seed as usize % 8) * 1000;
-                        jobs.push(Job::new(
-                            format!("weyl-d{}-n{}-k{}-ord{}", d, n, k, order),
-                            json!({"kind": "structured", "fam": "weyl", "d": d, "n": n, "k": k, "shift": shift, "order": order, "ms_cap": MS_MAX}),
-                        ));
-                        structured += 1;
-                    }
+                    let shift = (seed as usize % 8) * 1000;
+                    jobs.push(Job::new(
+                        format!("weyl-d{}-n{}-k{}", d, n, k),
+                        json!({"kind": "structured", "fam": "weyl", "d": d, "n": n, "k": k, "shift": shift, "orders": orders, "ms_cap": MS_MAX}),
+                    ));
+                    structured += orders.len();
                 }
             }
         }
@@ -481,6 +493,7 @@ impl Harness for C13 {
             floors: floors(t),
             bounds: json!({
                 "lattices_exhaustive": lattice_bounds,
+                "lattice_multisets_exhaustive": multiset_bounds,
                 "structured_data_sets": structured,
                 "structured": "chains (n up to 150 [thorough] / 21 [quick], d=1..4, axis/diagonal/staircase, 6 spacing patterns incl. gaps and duplicates), lattice blobs (1..3 Manhattan balls of radius 1..2 in d=1..4, touching / one apart / two apart, with bridge, far noise and duplicated noise points), Kronecker (Weyl) point sets (continuous coordinates, uniform and 1..3 blobs, d=1..4); each in 4 [thorough] / 2 [quick] row orders x both metrics x up to 14 radii per metric (half the smallest / 1.5 x the largest realised distance, mid-points between consecutive distinct realised distances at 8 quantiles, realised distances themselves for integer-valued families) x min_samples 1..8; f64",
                 "seed": format!("coordinate transform x -> {}*x + {} (eps scaled by |{}|); Kronecker index shift {}", tf.0, tf.1, tf.0, (seed % 8) * 1000),
@@ -514,18 +527,45 @@ impl Harness for C13 {
                     run_case::<f64>(&c)
                 }
             }
+            "multiset" => {
+                let lat = Lattice::parse(job.s("lattice"));
+                let n = job.u("n");
+                let metric = if job.s("metric") == "euclidean" { Metric::Euclid } else { Metric::Manhattan };
+                // non-decreasing sequence of lattice points starting at `first`
+                let mut idx: Vec<usize> = vec![job.u("first")];
+                while idx.len() < n {
+                    let lo = *idx.last().unwrap();
+                    idx.push(lo + mc::choose(lat.size() - lo));
+                }
+                let orders: Vec<usize> = job.params["orders"].as_array().unwrap().iter().map(|v| v.as_u64().unwrap() as usize).collect();
+                let order = mc::pick(&orders);
+                let eps_list = lat.eps_list(job.b("thorough"));
+                let eps = mc::pick(&eps_list) * tf.0.abs();
+                let ms = 1 + mc::choose(job.u("ms_cap"));
+                let mut pts: Vec<Vec<f64>> = data::reorder(idx.iter().map(|&v| lat.point(v)).collect(), order);
+                let mut queries = lat.queries();
+                data::transform(&mut pts, tf);
+                data::transform(&mut queries, tf);
+                let fam = format!("{} multiset order={}", lat.name(), order);
+                run_case::<f64>(&Case { family: &fam, pts: &pts, queries: &queries, eps, ms, metric, width: 64 })
+            }
             "structured" => {
+                // row order first: it is the outermost choice, so the prepared data set is reused
+                let orders: Vec<usize> = job.params["orders"].as_array().unwrap().iter().map(|v| v.as_u64().unwrap() as usize).collect();
+                let order = mc::pick(&orders);
+                let key = format!("{}#{}", job.name, order);
                 PREP.with(|p| {
                     let mut p = p.borrow_mut();
-                    if p.as_ref().map(|x| x.key != job.name).unwrap_or(true) {
-                        *p = Some(prepare(job, tf));
+                    if p.as_ref().map(|x| x.key != key).unwrap_or(true) {
+                        *p = Some(prepare(job, order, key, tf));
                     }
                     let prep = p.as_ref().unwrap();
                     let mi = mc::choose(2);
                     let metric = if mi == 0 { Metric::Euclid } else { Metric::Manhattan };
                     let eps = mc::pick(&prep.eps[mi]);
                     let ms = 1 + mc::choose(job.u("ms_cap"));
-                    let c = Case { family: job.s("fam"), pts: &prep.pts, queries: &prep.queries, eps, ms, metric, width: 64 };
+                    let fam = format!("{} order={}", job.name, order);
+                    let c = Case { family: &fam, pts: &prep.pts, queries: &prep.queries, eps, ms, metric, width: 64 };
                     run_case::<f64>(&c)
                 });
             }
@@ -558,11 +598,11 @@ fn floors(thorough: bool) -> Vec<(&'static str, u64)> {
         ("one_cluster_all_core", 10_000 * k),
         ("has_border_point", 10_000 * k),
         ("noise_next_to_clusters", 5_000 * k),
-        ("border_point_between_two_clusters", 1_000 * k),
+        ("border_point_between_two_clusters", 100 * k),
         ("border_point_scanned_before_its_cluster", 5_000 * k),
         ("border_point_scanned_first_and_reached_via_secondary", 500 * k),
         ("core_with_exactly_min_samples", 10_000 * k),
-        ("border_label_differs_between_backends", 100 * k),
+        ("border_label_differs_between_backends", 20 * k),
         ("covertree_fit_panics", 50),
         ("predict_rows_without_neighbours", 100_000 * k),
         ("predict_rows_plurality_tie", 10_000 * k),
